@@ -238,7 +238,7 @@ impl Prop for C03 {
             }
         }
         for inc in [true, false] {
-            for amount in 1..=4 {
+            for amount in [1, 2, 3, 4, 255, 256, 257, 300] {
                 for a in 0..n {
                     v.push(Case::IncDec { inc, amount, a });
                 }
